@@ -499,7 +499,7 @@ impl Prop for C04 {
         }
     }
     fn worker(&self, ctx: &mut WorkerCtx) {
-        let total = if ctx.quick { 5_000 } else { 100_000 };
+        let total = if ctx.quick { 10_000 } else { 250_000 };
         let n = ctx.share(total);
         ctx.drive(1, n, 200, &gen_case, &check, &reduce);
     }
